@@ -304,12 +304,16 @@ func raceReports() (int, string) {
 
 func main() {
 	r := evid.New(P, "exploration")
-	r.Rule("grid of buffer sizes {0,1,2,10,100} x producers {1,2,4} x burst lengths (1..5000, mostly far above the buffer) x consumer pacing (0: idle until all producers finished; 1: eager; 2: random yields; 3: periodic sleeps; 4: bursty) x GOMAXPROCS {1,2,16} x stop point (never / random mid-stream), each executed on the real chain.ConcurrentQueue under the race detector. Recorded trace = (producer,seq) items with send-call/send-return/receive stamps from one atomic clock; offline checker: exactly-once, per-producer FIFO, real-time order across producers, received-after-sent. Producer progress with an idle consumer and worker exit after Stop are decided from goroutine state. Non-trivial = burst larger than the buffer; distinct = distinct (case, seed); distinct interleavings = distinct receive-stamp prefixes.")
+	r.Rule("grid of buffer sizes {0,1,2,10,100} x producers {1,2,4} x burst lengths (1..5000, mostly far above the buffer) x consumer pacing (0: idle until all producers finished; 1: eager; 2: random yields; 3: periodic sleeps; 4: bursty) x GOMAXPROCS {1,2,16} x stop point (never / random mid-stream), each executed on the real chain.ConcurrentQueue under the race detector. Recorded trace = (producer,seq) items with send-call/send-return/receive stamps from one atomic clock; offline checker: exactly-once, per-producer FIFO, real-time order across producers, received-after-sent. Producer progress with an idle consumer and worker exit after Stop are decided from goroutine state. Before the queue cases a real chain.BitcoindClient over a fake JSON-RPC bitcoind is started with 0, 1 and 2 failing Start calls (node warming up) followed by retries: its queue must have exactly one worker, ClientConnected must arrive exactly once, Stop must end the worker. Non-trivial = burst larger than the buffer; distinct = distinct (case, seed); distinct interleavings = distinct receive-stamp prefixes.")
 	r.Trusted("Go race detector; runtime.Stack goroutine states")
 	r.Assume("a single consumer (as in the wallet)", "schedules are sampled, not enumerated")
 	bufs := []int{0, 1, 2, 10, 100}
 	procs := []int{1, 2, 16}
 	n := r.N(240, 6000)
+	// the queue inside a real embedder (sequential, before the queue cases: the
+	// worker count is a process-wide goroutine census)
+	r.Parallel("client", 1, 1, func(i int, cs int64) { clientProbe(r, cs) })
+	r.Require("client-start-sequences", 3)
 	r.Parallel("queue", n, 1, func(i int, cs int64) {
 		rg := rand.New(rand.NewSource(cs))
 		c := caseCfg{buf: bufs[rg.Intn(len(bufs))], nprod: []int{1, 1, 2, 4}[rg.Intn(4)], mode: rg.Intn(5), procs: procs[rg.Intn(3)], stopAt: -1}
